@@ -220,6 +220,8 @@ def annotate(events):
         ev.setdefault("dprev", 0)
         ev.setdefault("sig", 0)
         ev.setdefault("gs", 0)
+        ev.setdefault("bprev", 0)
+        ev.setdefault("pc", [])
         key = (ev["ph"], ev["pnull"], tuple(ev["s"]), ev["snull"])
         succ = ev["ret"] == "out" and ev["outk"] == "str" and ev["out"] and ev["out"][0] != 42
         ev["kprev"] = seen.get(key, 0)
